@@ -2,9 +2,11 @@ package rules
 
 import (
 	"fmt"
+	"go/ast"
 	"go/types"
 	"strings"
 
+	"golang.org/x/tools/go/packages"
 	"golang.org/x/tools/go/ssa"
 
 	"verif/internal/load"
@@ -128,6 +130,183 @@ func runCT1(c *load.Ctx, r *report.RuleResult) {
 			default:
 				r.OK(key, c.Pos(ctor.Pos()), fmt.Sprintf("%d store(s), in the constructor, from the whole content", stores))
 			}
+		}
+	}
+}
+
+// --- CT-2: a file's content is the text it was given ------------------------------------------------------
+
+func init() {
+	register(&Rule{ID: "CT-2", Min: 3, Run: runCT2,
+		Doc: "a file's content is the text it was given, byte for byte: in package fs, the value NewFile stores as content is what normalizeFileContent returns for the caller's argument, every value normalizeFileContent returns is its parameter itself or a type conversion of it (no call, no slice expression, no copy that could drop or rewrite bytes — a byte order mark, a trailing line break), and Content() returns the stored field — C05 and C14 speak about the bytes the caller supplied, and positions (C17) are offsets into them"})
+}
+
+func runCT2(c *load.Ctx, r *report.RuleResult) {
+	p := c.Pkg("fs")
+	if p == nil {
+		r.Unk("anchor|fs", "", "package fs not found")
+		return
+	}
+	found := map[string]bool{}
+	c.EachFuncDecl(func(pk *packages.Package, _ *ast.File, fd *ast.FuncDecl) {
+		if pk != p || fd.Body == nil {
+			return
+		}
+		pos := c.Pos(fd.Pos())
+		switch fd.Name.Name {
+		case "normalizeFileContent":
+			found["normalize"] = true
+			key := "content|fs.normalizeFileContent|returns"
+			if fd.Type.Params == nil || len(fd.Type.Params.List) != 1 || len(fd.Type.Params.List[0].Names) != 1 {
+				r.Unk(key, pos, "unexpected parameter list")
+				return
+			}
+			param := pk.TypesInfo.Defs[fd.Type.Params.List[0].Names[0]]
+			// identifiers that stand for the parameter: the parameter, and the symbol a type switch over
+			// any(parameter) binds
+			same := map[types.Object]bool{param: true}
+			var isParam func(e ast.Expr) bool
+			isParam = func(e ast.Expr) bool {
+				switch x := ast.Unparen(e).(type) {
+				case *ast.Ident:
+					return same[pk.TypesInfo.Uses[x]] || same[pk.TypesInfo.Defs[x]]
+				case *ast.CallExpr:
+					// a conversion T(x), any(x)
+					if tv, ok := pk.TypesInfo.Types[x.Fun]; ok && tv.IsType() && len(x.Args) == 1 {
+						return isParam(x.Args[0])
+					}
+				case *ast.TypeAssertExpr:
+					return isParam(x.X)
+				}
+				return false
+			}
+			ast.Inspect(fd.Body, func(n ast.Node) bool {
+				ts, ok := n.(*ast.TypeSwitchStmt)
+				if !ok {
+					return true
+				}
+				if as, ok := ts.Assign.(*ast.AssignStmt); ok && len(as.Rhs) == 1 && isParam(as.Rhs[0]) {
+					for _, cl := range ts.Body.List {
+						if obj := pk.TypesInfo.Implicits[cl]; obj != nil {
+							same[obj] = true
+						}
+					}
+				}
+				return true
+			})
+			// a local that is only ever assigned the parameter (or a conversion of it) stands for it too
+			for changed := true; changed; {
+				changed = false
+				assigned := map[types.Object][]ast.Expr{}
+				ast.Inspect(fd.Body, func(n ast.Node) bool {
+					switch x := n.(type) {
+					case *ast.AssignStmt:
+						if len(x.Lhs) == len(x.Rhs) {
+							for i, l := range x.Lhs {
+								if id, ok := l.(*ast.Ident); ok {
+									obj := pk.TypesInfo.Defs[id]
+									if obj == nil {
+										obj = pk.TypesInfo.Uses[id]
+									}
+									if obj != nil {
+										assigned[obj] = append(assigned[obj], x.Rhs[i])
+									}
+								}
+							}
+						}
+					case *ast.IncDecStmt, *ast.RangeStmt:
+						return true
+					}
+					return true
+				})
+				for obj, rhs := range assigned {
+					if same[obj] || obj == param {
+						continue
+					}
+					all := true
+					for _, e := range rhs {
+						if !isParam(e) {
+							all = false
+						}
+					}
+					if all {
+						same[obj] = true
+						changed = true
+					}
+				}
+			}
+			var bad []string
+			nret := 0
+			ast.Inspect(fd.Body, func(n ast.Node) bool {
+				if _, ok := n.(*ast.FuncLit); ok {
+					return false
+				}
+				rs, ok := n.(*ast.ReturnStmt)
+				if !ok {
+					return true
+				}
+				for _, e := range rs.Results {
+					nret++
+					if !isParam(e) {
+						bad = append(bad, fmt.Sprintf("%s returns %s", c.Pos(rs.Pos()), types.ExprString(e)))
+					}
+				}
+				return true
+			})
+			switch {
+			case nret == 0:
+				r.Unk(key, pos, "no return statement found")
+			case len(bad) > 0:
+				r.Bad(key, pos, "the content is not the caller's text as it is: "+strings.Join(bad, "; "))
+			default:
+				r.OK(key, pos, fmt.Sprintf("%d return(s), each the parameter or a conversion of it", nret))
+			}
+		case "NewFile":
+			found["new"] = true
+			key := "content|fs.NewFile|stores"
+			ok := false
+			ast.Inspect(fd.Body, func(n ast.Node) bool {
+				kv, isKV := n.(*ast.KeyValueExpr)
+				if !isKV {
+					return true
+				}
+				if id, isID := kv.Key.(*ast.Ident); isID && id.Name == "content" {
+					if call, isCall := kv.Value.(*ast.CallExpr); isCall && len(call.Args) == 1 {
+						if fid, isF := call.Fun.(*ast.Ident); isF && fid.Name == "normalizeFileContent" {
+							if aid, isA := call.Args[0].(*ast.Ident); isA && len(fd.Type.Params.List) == 2 && pk.TypesInfo.Uses[aid] == pk.TypesInfo.Defs[fd.Type.Params.List[1].Names[0]] {
+								ok = true
+							}
+						}
+					}
+				}
+				return true
+			})
+			if ok {
+				r.OK(key, pos, "content: normalizeFileContent(content)")
+			} else {
+				r.Bad(key, pos, "NewFile does not store normalizeFileContent(<its content argument>) as the file's content")
+			}
+		case "Content":
+			found["content"] = true
+			key := "content|fs.File.Content|returns"
+			ok := false
+			if len(fd.Body.List) == 1 {
+				if rs, isR := fd.Body.List[0].(*ast.ReturnStmt); isR && len(rs.Results) == 1 {
+					if sel, isS := rs.Results[0].(*ast.SelectorExpr); isS && sel.Sel.Name == "content" {
+						ok = true
+					}
+				}
+			}
+			if ok {
+				r.OK(key, pos, "returns the stored field")
+			} else {
+				r.Bad(key, pos, "Content() is more than a return of the stored content")
+			}
+		}
+	})
+	for _, k := range []string{"normalize", "new", "content"} {
+		if !found[k] {
+			r.Unk("anchor|fs "+k, "", "function not found in package fs")
 		}
 	}
 }
